@@ -92,6 +92,14 @@ theorem equal4_eq_cmp (a b : List α) : equal4 key a b = (lexCmp key a b == .eq)
     rw [h', Bool.false_and]
     cases hc : lexCmp key a b <;> simp_all
 
+/-- the `size() == size() && std::equal(b, e, b2)` idiom -/
+theorem equal3_guarded (a b : List α) :
+    (decide (a.length = b.length) && equal3 key a b) = (lexCmp key a b == .eq) := by
+  have := equal4_eq_cmp key a b
+  unfold equal4 at this
+  rw [← this]
+  by_cases h : a.length = b.length <;> simp [h]
+
 /-! ### `lexCmp` is a total preorder comparison -/
 
 theorem lexCmp_refl (a : List α) : lexCmp key a a = .eq :=
